@@ -131,7 +131,7 @@ example : (getPrivmsgTargetType (str "#m")).1.channel = true ∧
     canSend chanM (str "carol") (x.conn 3).source = false := by decide
 open Msg.Demo in
 example : (privmsgTarget cfg 3 (str "carol") false (str "hi") (str "#m") x).1.direct =
-    [str ":irc.irc 404 carol #m :Cannot send to channel"] ∧
+    [(str ":irc.irc " ++ Reply.ErrCannotSendToChain404 (client := str "carol") (channel := str "#m"))] ∧
     (privmsgTarget cfg 3 (str "carol") false (str "hi") (str "#m") x).1.queued = [] := by decide
 open Msg.Demo in
 example : (privmsgTarget cfg 3 (str "carol") true (str "hi") (str "#m") x).1.direct = [] ∧
@@ -176,10 +176,10 @@ open Msg.Demo in
 /-- the same targets as PRIVMSG: 404, 403, 401 and the away text -/
 example : (processPrivmsgNotice cfg 3 [str "#m", str "#nope", str "nobody", str "carol", str "bob"]
       (str "hi") false x).direct =
-      [str ":irc.irc 404 carol #m :Cannot send to channel",
-       str ":irc.irc 403 carol #nope :No such channel",
-       str ":irc.irc 401 carol nobody :No such nick/channel",
-       str ":irc.irc 301 carol carol :gone fishing"] := by
+      [(str ":irc.irc " ++ Reply.ErrCannotSendToChain404 (client := str "carol") (channel := str "#m")),
+       (str ":irc.irc " ++ Reply.ErrNoSuchChannel403 (client := str "carol") (channel := str "#nope")),
+       (str ":irc.irc " ++ Reply.ErrNoSuchNick401 (client := str "carol") (nick := str "nobody")),
+       (str ":irc.irc " ++ Reply.RplAway301 (client := str "carol") (nick := str "carol") (message := str "gone fishing"))] := by
   decide
 
 /-! ## 4. PRIVMSG to a user: away text; unknown targets -/
@@ -264,7 +264,7 @@ example : (getPrivmsgTargetType (str "carol")).1.channel = false ∧
   decide
 open Msg.Demo in
 example : (privmsgTarget cfg 1 (str "alice") false (str "hi") (str "carol") x).1.direct =
-      [str ":irc.irc 301 alice carol :gone fishing"] ∧
+      [(str ":irc.irc " ++ Reply.RplAway301 (client := str "alice") (nick := str "carol") (message := str "gone fishing"))] ∧
     (privmsgTarget cfg 1 (str "alice") false (str "hi") (str "carol") x).1.queued =
       [(3, str ":alice!~u@h PRIVMSG carol :hi")] := by decide
 open Msg.Demo in
